@@ -5,6 +5,8 @@ document image afterwards with the image predicted by vf.model.edits from the
 *pre*-image and the target locations computed by the reference evaluator
 (vf.model.pathsem) on the pre-state.  Used by C03, C04 and C09.
 """
+import re
+
 from vf.core import yp
 from vf.core.yp import Processor, YAMLPathException, LOG
 from vf.gen import paths as gp
@@ -45,7 +47,10 @@ def targets_for(data, segs, need_scalar=True, allow_root=False):
     return res
 
 
-def reload_check(ctx, data, case, prefix):
+MERGE_LIST_DEFINES_ANCHOR = re.compile(r"<<: \[[^\]\n]*&[A-Za-z0-9_]+ [^\]\n,]+: ")
+
+
+def reload_check(ctx, data, case, prefix, reload_claimed=True):
     try:
         text2 = yp.dump(data)
     except Exception as e:
@@ -54,7 +59,15 @@ def reload_check(ctx, data, case, prefix):
     try:
         d2 = yp.load(text2)
     except yp.LoadError:
-        ctx.violation(prefix + "/does-not-reload", {"case": case, "summary": "dump does not reload: %r" % text2[:300]})
+        mech = prefix + "/does-not-reload"
+        if MERGE_LIST_DEFINES_ANCHOR.search(text2):
+            # ruamel writes a `<<: [..]` list in flow style and, when the anchored source mapping was deleted
+            # from its own key, defines it there as `&a k: v` without braces - which no YAML loader accepts
+            mech += "/merge-list-defines-anchor"
+            if not reload_claimed:
+                ctx.count("unreloadable_merge_list_reported_under_C03")
+                return
+        ctx.violation(mech, {"case": case, "summary": "dump does not reload: %r" % text2[:300]})
         return
     # "reloads to the same data": anchor *names* are not data (ruamel itself drops the anchor of a
     # never-aliased `&A 0` on load); the strict loader already rejects duplicate / undefined anchors
@@ -63,6 +76,9 @@ def reload_check(ctx, data, case, prefix):
         df = E.diff(a, b)
         ctx.violation(prefix + "/reload-differs", {
             "case": case, "summary": "reload differs at %r ; dump=%r" % (df[:3], text2[:300])})
+    elif E.effective(data) != E.effective(d2):
+        ctx.violation(prefix + "/reload-differs-inherited", {
+            "case": case, "summary": "what mappings inherit through << differs after reload; dump=%r" % text2[:300]})
     ctx.count("reload_checked")
 
 
@@ -101,7 +117,10 @@ def step_set(ctx, data, doc_text, segs, value, prefix="set", history=None):
         return False
     if ptext.startswith("/"):
         return False
-    targets = [p.ord for p in res]
+    targets = [E.own_loc(data, p.ord) for p in res]
+    if any(t is None for t in targets):
+        ctx.count("abstain_target_inherited_through_merge_key")
+        return False
     locs = set(targets)
     for p in res:
         for l in E.alias_sites(data, p.node):
@@ -144,7 +163,7 @@ def step_set(ctx, data, doc_text, segs, value, prefix="set", history=None):
     return True
 
 
-def step_delete(ctx, data, doc_text, segs, prefix="delete", history=None):
+def step_delete(ctx, data, doc_text, segs, prefix="delete", history=None, reload_claimed=True):
     res = targets_for(data, segs, need_scalar=False, allow_root=True)
     if res is None:
         ctx.count("abstain_targets")
@@ -159,6 +178,10 @@ def step_delete(ctx, data, doc_text, segs, prefix="delete", history=None):
             "state_before": yp.dump(data) if history else None}
     img0 = E.image(data)
     root = any(p.kind == "root" for p in res)
+    locs = [E.own_loc(data, p.ord) for p in res]
+    if any(l is None for l in locs):
+        ctx.count("abstain_target_inherited_through_merge_key")
+        return False
     ctx.evaluations += 1
     ctx.count("delete_steps")
     try:
@@ -185,7 +208,6 @@ def step_delete(ctx, data, doc_text, segs, prefix="delete", history=None):
         ctx.violation(prefix + "/refused/%s" % type(raised).__name__, {
             "case": case, "summary": "delete of matched nodes refused: %s" % str(raised)[:150]})
         return True
-    locs = [p.ord for p in res]
     try:
         expected = E.apply_delete(img0, locs)
     except (KeyError, IndexError):
@@ -197,7 +219,7 @@ def step_delete(ctx, data, doc_text, segs, prefix="delete", history=None):
         df = E.diff(expected, actual)
         kinds = sorted({m.split()[0] for _l, m in df})
         ctx.violation(prefix + "/" + "+".join(kinds), {"case": case, "summary": "differs from model at %r" % (df[:3],)})
-    reload_check(ctx, data, case, prefix)
+    reload_check(ctx, data, case, prefix, reload_claimed)
     return True
 
 
@@ -238,7 +260,7 @@ def gen_creation(rng, data):
     depth = rng.randrange(0, 4)
     for _ in range(depth):
         if isinstance(node, dict) and len(node):
-            keys = [(i, k) for i, k in enumerate(node.keys())
+            keys = [(i, k) for i, (k, _v) in enumerate(yp.own_items(node))
                     if isinstance(k, str) and k.isalnum() and not k.lstrip("-").isdigit()]
             if not keys:
                 break
@@ -390,4 +412,4 @@ def roundtrips(data):
         d2 = yp.load(yp.dump(data))
     except Exception:
         return False
-    return E.strip_anchors(E.image(data)) == E.strip_anchors(E.image(d2))
+    return E.strip_anchors(E.image(data)) == E.strip_anchors(E.image(d2)) and E.effective(data) == E.effective(d2)
